@@ -400,11 +400,18 @@ class VariationalWassersteinDistance(darsia.EMD):
         """
         # Define AMG solver
         self.setup_amg_options()
-        with warnings.catch_warnings():
-            warnings.filterwarnings("ignore", message="Implicit conversion of A to CSR")
-            self.linear_solver = pyamg.smoothed_aggregation_solver(
-                matrix, **self.amg_options
-            )
+        # NOTE: pyamg draws from numpy's global random state; do not alter it.
+        random_state = np.random.get_state()
+        try:
+            with warnings.catch_warnings():
+                warnings.filterwarnings(
+                    "ignore", message="Implicit conversion of A to CSR"
+                )
+                self.linear_solver = pyamg.smoothed_aggregation_solver(
+                    matrix, **self.amg_options
+                )
+        finally:
+            np.random.set_state(random_state)
 
         # Define solver options
         linear_solver_options = self.options.get("linear_solver_options", {})
@@ -438,11 +445,18 @@ class VariationalWassersteinDistance(darsia.EMD):
 
         # Define AMG preconditioner
         self.setup_amg_options()
-        with warnings.catch_warnings():
-            warnings.filterwarnings("ignore", message="Implicit conversion of A to CSR")
-            amg = pyamg.smoothed_aggregation_solver(
-                matrix, **self.amg_options
-            ).aspreconditioner(cycle="V")
+        # NOTE: pyamg draws from numpy's global random state; do not alter it.
+        random_state = np.random.get_state()
+        try:
+            with warnings.catch_warnings():
+                warnings.filterwarnings(
+                    "ignore", message="Implicit conversion of A to CSR"
+                )
+                amg = pyamg.smoothed_aggregation_solver(
+                    matrix, **self.amg_options
+                ).aspreconditioner(cycle="V")
+        finally:
+            np.random.set_state(random_state)
 
         # Define solver options
         linear_solver_options = self.options.get("linear_solver_options", {})
